@@ -130,4 +130,325 @@ theorem swap_take_shape (rows3 : List DRow) (nle j0 bound : Nat) (h1 : nle ≤ j
   conv_lhs => rw [← List.take_append_drop nle (rows3.take j0)]
   rw [List.take_take, Nat.min_eq_left h1]
 
+/-- the facts about the partitioned list that the case analysis of `rayCase` uses. -/
+structure PartOK (st : CState) (R : List DRow) (leb sup : Nat) : Prop where
+  hlen : R.length = st.rows.length
+  htake : R.take st.nle = st.rows.take st.nle
+  hperm : (R.drop st.nle).Perm (st.rows.drop st.nle)
+  h1 : st.nle ≤ leb
+  h2 : leb ≤ sup
+  h3 : sup ≤ st.rows.length
+  hreg : Regions R st.nle leb sup sup
+  hz : ∀ d ∈ st.rows.take st.nle, d.sp = 0
+
+theorem PartOK.index {st R leb sup} (h : PartOK st R leb sup) (d : DRow) (hd : d ∈ st.rows.drop st.nle) :
+    ∃ m, st.nle ≤ m ∧ m < st.rows.length ∧ R[m]? = some d := by
+  rw [← h.hperm.mem_iff, mem_drop_iff_getElem?] at hd
+  obtain ⟨m, hm1, hm2⟩ := hd
+  exact ⟨m, hm1, by rw [← h.hlen]; exact (List.getElem?_eq_some_iff.1 hm2).1, hm2⟩
+
+theorem PartOK.at {st R leb sup} (h : PartOK st R leb sup) (m : Nat) (d : DRow) (hm : st.nle ≤ m)
+    (hd : R[m]? = some d) :
+    d ∈ st.rows.drop st.nle ∧ m < st.rows.length ∧ (m < leb → d.sp = 0) ∧
+      (leb ≤ m → m < sup → 0 < d.sp) ∧ (sup ≤ m → d.sp < 0) := by
+  have hml : m < R.length := (List.getElem?_eq_some_iff.1 hd).1
+  have hg : R.getD m default = d := getD_of_getElem? R m d default hd
+  obtain ⟨r1, r2, r3⟩ := h.hreg
+  refine ⟨?_, by rw [← h.hlen]; exact hml, ?_, ?_, ?_⟩
+  · rw [← h.hperm.mem_iff, mem_drop_iff_getElem?]
+    exact ⟨m, hm, hd⟩
+  · intro hm2; rw [← hg]; exact r1 m hm hm2
+  · intro hm1 hm2; rw [← hg]; exact r2 m hm1 hm2
+  · intro hm1; rw [← hg]; exact r3 m hm1 hml
+
+theorem PartOK.sign {st R leb sup} (h : PartOK st R leb sup) (d : DRow) (hd : d ∈ st.rows) :
+    d.sp = 0 ∨ d ∈ st.rows.drop st.nle := by
+  rw [← List.take_append_drop st.nle st.rows, List.mem_append] at hd
+  rcases hd with hd | hd
+  · exact Or.inl (h.hz d hd)
+  · exact Or.inr hd
+
+theorem PartOK.hasNeg {st R leb sup} (h : PartOK st R leb sup) (hs : sup < st.rows.length) :
+    st.rows.any (fun d => decide (d.sp < 0)) = true ∧ st.rows.all (fun d => decide (0 ≤ d.sp)) = false := by
+  have hml : sup < R.length := by rw [h.hlen]; exact hs
+  obtain ⟨a1, _, _, _, a5⟩ := h.at sup (R.getD sup default) (by have := h.h1; have := h.h2; omega)
+    (getElem?_of_lt_getD R sup default hml)
+  have hmem := List.mem_of_mem_drop a1
+  have hneg := a5 (Nat.le_refl _)
+  constructor
+  · rw [List.any_eq_true]
+    exact ⟨_, hmem, by simpa using hneg⟩
+  · rw [List.all_eq_false]
+    exact ⟨_, hmem, by rw [decide_eq_true_eq]; omega⟩
+
+theorem PartOK.noNeg {st R leb sup} (h : PartOK st R leb sup) (hs : sup = st.rows.length) :
+    st.rows.all (fun d => decide (0 ≤ d.sp)) = true ∧ st.rows.any (fun d => decide (d.sp < 0)) = false := by
+  have key : ∀ d ∈ st.rows, 0 ≤ d.sp := by
+    intro d hd
+    rcases h.sign d hd with h0 | hd
+    · omega
+    · obtain ⟨m, hm1, hm2, hm3⟩ := h.index d hd
+      obtain ⟨_, _, a3, a4, _⟩ := h.at m d hm1 hm3
+      by_cases hml : m < leb
+      · have := a3 hml; omega
+      · have := a4 (by omega) (by omega); omega
+  constructor
+  · rw [List.all_eq_true]
+    intro d hd
+    simpa using key d hd
+  · rw [List.any_eq_false]
+    intro d hd
+    have := key d hd
+    simp; omega
+
+/-- the statement of `rayCase_rows` about an arbitrary final state. -/
+def RayPost (srcK : LRow) (newK : Nat) (st st' : CState) : Prop :=
+  st'.nle = st.nle ∧ st'.k = st.k ∧
+  (st'.redundant = if !srcK.le && st.rows.all (fun d => decide (0 ≤ d.sp)) then st.redundant ++ [st.k] else st.redundant) ∧
+  ∃ tail, st'.rows = st.rows.take st.nle ++ tail ∧
+    (∀ d' ∈ tail, (∃ d ∈ st.rows.drop st.nle, survives srcK d ∧
+          d' = keepImage (!srcK.le && st.rows.any (fun d => decide (d.sp < 0))) newK d) ∨
+        (∃ ri ∈ st.rows.drop st.nle, ∃ rj ∈ st.rows.drop st.nle, 0 < ri.sp ∧ rj.sp < 0 ∧
+          d' = newRay ri rj (bor ri.sat rj.sat))) ∧
+    (∀ d ∈ st.rows.drop st.nle, survives srcK d →
+      keepImage (!srcK.le && st.rows.any (fun d => decide (d.sp < 0))) newK d ∈ tail)
+
+/-- Q- is empty. -/
+theorem rayBody_noNeg (ncols : Nat) (srcK : LRow) (newK : Nat) (st : CState) (R : List DRow) (leb sup : Nat)
+    (h : PartOK st R leb sup) (hs : sup = st.rows.length) :
+    RayPost srcK newK st (rayBody ncols srcK newK st R leb sup) := by
+  obtain ⟨g1, g2⟩ := h.noNeg hs
+  cases hle : srcK.le
+  · have hb : rayBody ncols srcK newK st R leb sup = { st with rows := R, redundant := st.redundant ++ [st.k] } := by
+      simp [rayBody, hs, hle]
+    rw [hb]
+    refine ⟨rfl, rfl, by simp [hle, g1], R.drop st.nle, ?_, ?_, ?_⟩
+    · show R = _
+      rw [← h.htake, List.take_append_drop]
+    · intro d' hd'
+      have hm : d' ∈ st.rows.drop st.nle := h.hperm.mem_iff.1 hd'
+      refine Or.inl ⟨d', hm, ?_, by simp [keepImage, g2]⟩
+      have := (List.all_eq_true.1 g1) d' (List.mem_of_mem_drop hm)
+      simpa [survives, hle] using this
+    · intro d hd _
+      have : keepImage (!srcK.le && st.rows.any (fun d => decide (d.sp < 0))) newK d = d := by
+        simp [keepImage, g2]
+      rw [this]
+      exact h.hperm.mem_iff.2 hd
+  · have hb : rayBody ncols srcK newK st R leb sup = { st with rows := R.take leb } := by
+      simp [rayBody, hs, hle]
+    rw [hb]
+    refine ⟨rfl, rfl, by simp [hle], (R.take leb).drop st.nle, ?_, ?_, ?_⟩
+    · show R.take leb = _
+      conv_lhs => rw [← List.take_append_drop st.nle (R.take leb)]
+      rw [List.take_take, Nat.min_eq_left h.h1, h.htake]
+    · intro d' hd'
+      rw [mem_take_drop_iff_getElem?] at hd'
+      obtain ⟨m, hm1, hm2, hm3⟩ := hd'
+      obtain ⟨a1, _, a3, _, _⟩ := h.at m d' hm1 hm3
+      exact Or.inl ⟨d', a1, by simpa [survives, hle] using a3 hm2, by simp [keepImage, hle]⟩
+    · intro d hd hsv
+      have hsp : d.sp = 0 := by simpa [survives, hle] using hsv
+      have : keepImage (!srcK.le && st.rows.any (fun d => decide (d.sp < 0))) newK d = d := by
+        simp [keepImage, hle]
+      rw [this, mem_take_drop_iff_getElem?]
+      obtain ⟨m, hm1, hm2, hm3⟩ := h.index d hd
+      obtain ⟨_, _, _, a4, _⟩ := h.at m d hm1 hm3
+      refine ⟨m, hm1, ?_, hm3⟩
+      by_cases hml : m < leb
+      · exact hml
+      · have := a4 (by omega) (by omega); omega
+
+/-- Q= and Q+ are empty. -/
+theorem rayBody_allNeg (ncols : Nat) (srcK : LRow) (newK : Nat) (st : CState) (R : List DRow) (leb sup : Nat)
+    (h : PartOK st R leb sup) (hs : sup < st.rows.length) (hsn : sup = st.nle) :
+    RayPost srcK newK st (rayBody ncols srcK newK st R leb sup) := by
+  obtain ⟨g1, g2⟩ := h.hasNeg hs
+  have hb : rayBody ncols srcK newK st R leb sup = { st with rows := R.take sup } := by
+    have : st.nle ≠ st.rows.length := by omega
+    simp [rayBody, this, hsn]
+  rw [hb]
+  refine ⟨rfl, rfl, by simp [g2], [], ?_, ?_, ?_⟩
+  · show R.take sup = _
+    rw [hsn, h.htake]; simp
+  · intro d' hd'; cases hd'
+  · intro d hd hsv
+    exfalso
+    obtain ⟨m, hm1, hm2, hm3⟩ := h.index d hd
+    obtain ⟨_, _, _, _, a5⟩ := h.at m d hm1 hm3
+    have := a5 (by omega)
+    unfold survives at hsv
+    split at hsv <;> omega
+
+/-- members of the appended new rays. -/
+theorem PartOK.newRay_mem {st R leb sup} (h : PartOK st R leb sup) (ncols newK : Nat) (x : DRow)
+    (hx : x ∈ newRays ncols st.nle newK leb sup st.rows.length R) :
+    ∃ ri ∈ st.rows.drop st.nle, ∃ rj ∈ st.rows.drop st.nle, 0 < ri.sp ∧ rj.sp < 0 ∧
+      x = newRay ri rj (bor ri.sat rj.sat) := by
+  obtain ⟨i, j, hi1, hi2, hj1, hj2, hx⟩ := mem_newRays _ _ _ _ _ _ _ _ hx
+  have hil : i < R.length := by rw [h.hlen]; have := h.h3; omega
+  have hjl : j < R.length := by rw [h.hlen]; exact hj2
+  have hnl := h.h1
+  obtain ⟨a1, _, _, a4, _⟩ := h.at i (R.getD i default) (by omega) (getElem?_of_lt_getD R i default hil)
+  obtain ⟨b1, _, _, _, b5⟩ := h.at j (R.getD j default) (by omega) (getElem?_of_lt_getD R j default hjl)
+  exact ⟨_, a1, _, b1, a4 hi1 hi2, b5 hj1, hx⟩
+
+/-- the general case, `source_k` an inequality. -/
+theorem rayBody_general_ineq (ncols : Nat) (srcK : LRow) (newK : Nat) (st : CState) (R : List DRow) (leb sup : Nat)
+    (h : PartOK st R leb sup) (hs : sup < st.rows.length) (hsn : sup ≠ st.nle) (hle : srcK.le = false) :
+    RayPost srcK newK st (rayBody ncols srcK newK st R leb sup) := by
+  obtain ⟨g1, g2⟩ := h.hasNeg hs
+  have hnl := h.h1
+  have hls := h.h2
+  have hne : sup ≠ st.rows.length := by omega
+  let f : Nat → DRow → DRow := fun l d => if leb ≤ l ∧ l < sup then { d with sat := setBit d.sat newK } else d
+  let NR := newRays ncols st.nle newK leb sup st.rows.length R
+  let rows3 := (R ++ NR).mapIdx f
+  have hl3 : st.rows.length ≤ rows3.length := by
+    simp only [rows3, List.length_mapIdx, List.length_append, h.hlen]; omega
+  obtain ⟨t, ht1, ht2⟩ := swap_take_shape rows3 st.nle sup st.rows.length (by omega) (by omega) hl3
+  have hb : rayBody ncols srcK newK st R leb sup = { st with rows := rows3.take st.nle ++ ((rows3.take sup).drop st.nle ++ t) } := by
+    rw [← ht1]
+    simp only [rayBody, beq_iff_eq, if_neg hne, if_neg hsn, hle, Bool.not_false, if_true]
+    rfl
+  rw [hb]
+  have e1 : rows3.take st.nle = st.rows.take st.nle := by
+    rw [mapIdx_take_eq f _ st.nle (by intro l hl d; simp only [f]; rw [if_neg (by omega)]),
+      List.take_append_of_le_length (by rw [h.hlen]; omega), h.htake]
+  have e2 : rows3.drop st.rows.length = NR := by
+    rw [mapIdx_drop_eq f _ st.rows.length (by intro l hl d; simp only [f]; rw [if_neg (by omega)]),
+      ← h.hlen, List.drop_left]
+  have e3 : ∀ m, m < st.rows.length → rows3[m]? = (R[m]?).map (f m) := by
+    intro m hm
+    simp only [rows3, List.getElem?_mapIdx]
+    rw [List.getElem?_append_left (by rw [h.hlen]; exact hm)]
+  have hfk : ∀ m d, st.nle ≤ m → m < sup → R[m]? = some d → 0 ≤ d.sp ∧
+      f m d = keepImage (!srcK.le && st.rows.any (fun d => decide (d.sp < 0))) newK d := by
+    intro m d hm1 hm2 hd
+    obtain ⟨_, _, a3, a4, _⟩ := h.at m d hm1 hd
+    by_cases hml : m < leb
+    · have := a3 hml
+      refine ⟨by omega, ?_⟩
+      simp only [f, keepImage, hle, g1]
+      rw [if_neg (by omega), if_neg (by simp; omega)]
+    · have := a4 (by omega) hm2
+      refine ⟨by omega, ?_⟩
+      simp only [f, keepImage, hle, g1]
+      rw [if_pos (by omega), if_pos (by simpa using this)]
+  refine ⟨rfl, rfl, by simp [g2], (rows3.take sup).drop st.nle ++ t, ?_, ?_, ?_⟩
+  · show rows3.take st.nle ++ _ = _
+    rw [e1]
+  · intro d' hd'
+    rw [List.mem_append] at hd'
+    rcases hd' with hd' | hd'
+    · rw [mem_take_drop_iff_getElem?] at hd'
+      obtain ⟨m, hm1, hm2, hm3⟩ := hd'
+      rw [e3 m (by omega)] at hm3
+      cases hR : R[m]? with
+      | none => rw [hR] at hm3; cases hm3
+      | some d =>
+        rw [hR] at hm3
+        obtain ⟨a1, _⟩ := h.at m d hm1 hR
+        obtain ⟨k1, k2⟩ := hfk m d hm1 hm2 hR
+        refine Or.inl ⟨d, a1, by simpa [survives, hle] using k1, ?_⟩
+        rw [← k2]
+        exact (Option.some.inj hm3).symm
+    · have : d' ∈ NR := by rw [← e2]; exact ht2.mem_iff.1 hd'
+      exact Or.inr (h.newRay_mem ncols newK d' this)
+  · intro d hd hsv
+    have hsp : 0 ≤ d.sp := by simpa [survives, hle] using hsv
+    obtain ⟨m, hm1, hm2, hm3⟩ := h.index d hd
+    obtain ⟨_, _, _, _, a5⟩ := h.at m d hm1 hm3
+    have hms : m < sup := by
+      by_cases hms : m < sup
+      · exact hms
+      · have := a5 (by omega); omega
+    obtain ⟨_, k2⟩ := hfk m d hm1 hms hm3
+    rw [List.mem_append]
+    left
+    rw [mem_take_drop_iff_getElem?]
+    exact ⟨m, hm1, hms, by rw [e3 m hm2, hm3, ← k2]; rfl⟩
+
+/-- the general case, `source_k` an equality. -/
+theorem rayBody_general_eq (ncols : Nat) (srcK : LRow) (newK : Nat) (st : CState) (R : List DRow) (leb sup : Nat)
+    (h : PartOK st R leb sup) (hs : sup < st.rows.length) (hsn : sup ≠ st.nle) (hle : srcK.le = true) :
+    RayPost srcK newK st (rayBody ncols srcK newK st R leb sup) := by
+  have hnl := h.h1
+  have hls := h.h2
+  have hne : sup ≠ st.rows.length := by omega
+  let NR := newRays ncols st.nle newK leb sup st.rows.length R
+  let rows3 := R ++ NR
+  have hl3 : st.rows.length ≤ rows3.length := by
+    simp only [rows3, List.length_append, h.hlen]; omega
+  obtain ⟨t, ht1, ht2⟩ := swap_take_shape rows3 st.nle leb st.rows.length (by omega) (by omega) hl3
+  have hb : rayBody ncols srcK newK st R leb sup = { st with rows := rows3.take st.nle ++ ((rows3.take leb).drop st.nle ++ t) } := by
+    rw [← ht1]
+    simp only [rayBody, beq_iff_eq, if_neg hne, if_neg hsn, hle, Bool.not_true]
+    rfl
+  rw [hb]
+  have e1 : rows3.take st.nle = st.rows.take st.nle := by
+    rw [List.take_append_of_le_length (by rw [h.hlen]; omega), h.htake]
+  have e2 : rows3.drop st.rows.length = NR := by
+    rw [← h.hlen, List.drop_left]
+  have e3 : ∀ m, m < st.rows.length → rows3[m]? = R[m]? := by
+    intro m hm
+    exact List.getElem?_append_left (by rw [h.hlen]; exact hm)
+  have hk : ∀ d, keepImage (!srcK.le && st.rows.any (fun d => decide (d.sp < 0))) newK d = d := by
+    intro d; simp [keepImage, hle]
+  refine ⟨rfl, rfl, by simp [hle], (rows3.take leb).drop st.nle ++ t, ?_, ?_, ?_⟩
+  · show rows3.take st.nle ++ _ = _
+    rw [e1]
+  · intro d' hd'
+    rw [List.mem_append] at hd'
+    rcases hd' with hd' | hd'
+    · rw [mem_take_drop_iff_getElem?] at hd'
+      obtain ⟨m, hm1, hm2, hm3⟩ := hd'
+      rw [e3 m (by omega)] at hm3
+      obtain ⟨a1, _, a3, _, _⟩ := h.at m d' hm1 hm3
+      exact Or.inl ⟨d', a1, by simpa [survives, hle] using a3 hm2, (hk d').symm⟩
+    · have : d' ∈ NR := by rw [← e2]; exact ht2.mem_iff.1 hd'
+      exact Or.inr (h.newRay_mem ncols newK d' this)
+  · intro d hd hsv
+    have hsp : d.sp = 0 := by simpa [survives, hle] using hsv
+    obtain ⟨m, hm1, hm2, hm3⟩ := h.index d hd
+    obtain ⟨_, _, _, a4, a5⟩ := h.at m d hm1 hm3
+    have hml : m < leb := by
+      by_cases hml : m < leb
+      · exact hml
+      · by_cases hms : m < sup
+        · have := a4 (by omega) hms; omega
+        · have := a5 (by omega); omega
+    rw [hk, List.mem_append]
+    left
+    rw [mem_take_drop_iff_getElem?]
+    exact ⟨m, hm1, hml, by rw [e3 m hm2, hm3]⟩
+
+theorem rayBody_rows (ncols : Nat) (srcK : LRow) (newK : Nat) (st : CState) (R : List DRow) (leb sup : Nat)
+    (h : PartOK st R leb sup) : RayPost srcK newK st (rayBody ncols srcK newK st R leb sup) := by
+  by_cases hs : sup = st.rows.length
+  · exact rayBody_noNeg ncols srcK newK st _ _ _ h hs
+  · have hs' : sup < st.rows.length := Nat.lt_of_le_of_ne h.h3 hs
+    by_cases hsn : sup = st.nle
+    · exact rayBody_allNeg ncols srcK newK st _ _ _ h hs' hsn
+    · cases hle : srcK.le
+      · exact rayBody_general_ineq ncols srcK newK st _ _ _ h hs' hsn hle
+      · exact rayBody_general_eq ncols srcK newK st _ _ _ h hs' hsn hle
+
+theorem rayCase_rows (ncols : Nat) (srcK : LRow) (newK : Nat) (st : CState) (hnle : st.nle ≤ st.rows.length)
+    (hz : ∀ d ∈ st.rows.take st.nle, d.sp = 0) :
+    let st' := rayCase ncols srcK newK st
+    let setb := !srcK.le && st.rows.any (fun d => decide (d.sp < 0))
+    st'.nle = st.nle ∧ st'.k = st.k ∧
+    (st'.redundant = if !srcK.le && st.rows.all (fun d => decide (0 ≤ d.sp)) then st.redundant ++ [st.k] else st.redundant) ∧
+    ∃ tail, st'.rows = st.rows.take st.nle ++ tail ∧
+      (∀ d' ∈ tail, (∃ d ∈ st.rows.drop st.nle, survives srcK d ∧ d' = keepImage setb newK d) ∨
+                    (∃ ri ∈ st.rows.drop st.nle, ∃ rj ∈ st.rows.drop st.nle, 0 < ri.sp ∧ rj.sp < 0 ∧ d' = newRay ri rj (bor ri.sat rj.sat))) ∧
+      (∀ d ∈ st.rows.drop st.nle, survives srcK d → keepImage setb newK d ∈ tail) := by
+  intro st' setb
+  show RayPost srcK newK st (rayCase ncols srcK newK st)
+  rw [rayCase_eq]
+  obtain ⟨p1, p2, p3, p4, p5, p6, p7⟩ := rayCase_partition st hnle
+  have h : PartOK st _ _ _ := ⟨p1, p2, p3, p4, p5, p6, p7, hz⟩
+  exact rayBody_rows ncols srcK newK st _ _ _ h
+
 end PPLV.Conv
